@@ -623,11 +623,12 @@ def _undefined_message(ctx: Ctx):
             d = [n for n in g.nodes if n.kind == "stmt" and isinstance(n.ast, ast.Assign)
                  and any(A.dotted(t) == tgt for t in n.ast.targets)
                  and isinstance(n.ast.value, ast.Call) and A.call_name(n.ast.value) == "UndefinedGroupedAvp"]
-            if not d or len(c.args) != 2 or ast.unparse(c.args[1]) != f"{v}.value":
+            if not d or len(c.args) != 2 or A.resolve_local_chain(av.node, c.args[1]) != f"{v}.value":
                 probs.append("grouped AVPs are not turned into nested objects filled from their children")
         plain = [n for n in g.nodes if n.kind == "stmt" and isinstance(n.ast, ast.Assign)
-                 and ast.unparse(n.ast.value) == f"{v}.value"]
-        if not plain or not grouped_fact(must_facts(g, at, plain[0]), False):
+                 and A.resolve_local_chain(av.node, n.ast.value) == f"{v}.value"
+                 and grouped_fact(must_facts(g, at, n), False)]
+        if not plain:
             probs.append("the value of a non-grouped AVP is not taken from avp.value")
         name_defs = [n for n in g.nodes if n.kind == "stmt" and isinstance(n.ast, ast.Assign)
                      and isinstance(n.ast.value, ast.Call)
